@@ -14,9 +14,12 @@ class Shadow:
         self.cur = {}; self.oth = {}
 
     def apply(self, tok):
-        w = tok.split(','); c = w[0]; a = list(map(int, w[1:]))
+        w = tok.split(','); c = w[0][0]; a = list(map(int, w[1:]))
         cur = self.cur
-        if c == 'a': cur.setdefault(a[0], []).append(a[2])
+        if c == 'n': cur.setdefault(a[0], [])
+        elif c == 'G':
+            for q in range(0, len(a) - 2, 3): cur.setdefault(a[q], []).append(a[q + 2])
+        elif c == 'a': cur.setdefault(a[0], []).append(a[2])
         elif c == 'A':
             if a[0] in cur: cur[a[0]].append(a[1])
         elif c == 'i': cur.setdefault(a[0], [])
@@ -47,7 +50,10 @@ def header(r, M=None, bucket=None, vt=None, hm=None):
 def gen_growshrink(r, M, bucket, vt, big):
     """one or two keys: walk through every pool, the heap array growth and the shrink chain, down to a value-less key"""
     ops = []; sh = Shadow(); nv = [100]
-    def add(tok): ops.append(tok); sh.apply(tok)
+    inj = r.chance(1, 2)        # this script injects allocation / key-relocation failures
+    def add(tok):
+        if inj and tok[0] in 'aArRK' and tok[1] == ',' and r.chance(1, 2): tok = tok[0] + '!' + tok[1:]
+        ops.append(tok); sh.apply(tok)
     def val():
         nv[0] += 1
         return nv[0] if r.chance(9, 10) else r.range(100, nv[0])
@@ -73,6 +79,7 @@ def gen_growshrink(r, M, bucket, vt, big):
 
 def gen_random(r, nkeys, nops, wide):
     ops = []; sh = Shadow(); nv = [0]
+    inj = r.chance(1, 3)
     def val():
         nv[0] += 1
         return nv[0] if r.chance(5, 6) else r.range(0, nv[0])
@@ -82,7 +89,9 @@ def gen_random(r, nkeys, nops, wide):
         nonempty = [k for k in present if cur[k]]
         t = r.below(100)
         k = r.below(nkeys)
-        if t < 34: tok = 'a,%d,%d,%d' % (k, r.below(50), val())
+        if t < 3: tok = 'n,%d,%d' % (k, r.below(50))
+        elif t < 6: tok = 'G,' + ','.join('%d,%d,%d' % (r.below(nkeys), r.below(50), val()) for _ in range(r.range(1, 4)))
+        elif t < 34: tok = 'a,%d,%d,%d' % (k, r.below(50), val())
         elif t < 44: tok = 'A,%d,%d' % ((r.choice(present) if present and r.chance(9, 10) else k), val())
         elif t < 49: tok = 'i,%d,%d' % (k, r.below(50))
         elif t < 69:
@@ -101,6 +110,7 @@ def gen_random(r, nkeys, nops, wide):
         elif t < 96: tok = r.choice(['y', 'y,1'])
         elif t < 98: tok = r.choice(['Y', 'Y,1'])
         else: tok = r.choice(['m', 'm,1'])
+        if inj and tok[0] in 'aArRK' and tok[1] == ',' and r.chance(1, 3): tok = tok[0] + '!' + tok[1:]
         ops.append(tok); sh.apply(tok)
     return ops
 
@@ -189,6 +199,7 @@ def _src_hash(ctx, src, flags):
     h = hashlib.sha256()
     h.update(open(os.path.join(ctx.pdir, src), 'rb').read())
     h.update(open(os.path.join(ctx.root, 'harness', 'private_access.h'), 'rb').read())
+    h.update(open(os.path.join(ctx.root, 'harness', 'kit.h'), 'rb').read())
     h.update(repr(flags).encode()); h.update(ctx.tier.encode())
     inc = os.path.join(ctx.repo, 'include')
     for dp, dn, fn in sorted(os.walk(inc)):
@@ -275,7 +286,7 @@ def run(ctx):
         ctx.log('a stage broke: searching the implementation for a failing input with the thorough generator')
         cases = cases + gen_cases(ctx, 4)
     groups = [(M, [c for c in cases if M_of(c) == M]) for M in MS] + [(0, um_cases)]
-    total_bad = []
+    total_bad = []; injected_total = [0, 0, 0, 0]
     for M, cs in groups:
         h = exes.get(M)
         if h is None or not cs: continue
@@ -294,6 +305,9 @@ def run(ctx):
         path = os.path.join(ctx.build, name + '.oracle.cases')
         open(path, 'w').write('\n'.join(cs) + '\n')
         rc, lines, err = ctx.run_lines([h], path)
+        mi = re.search(r'injected=(\d+) add_throw=(\d+) shrink_swallowed=(\d+) removekey_rollback=(\d+)', err or '')
+        if mi:
+            for q in range(4): injected_total[q] += int(mi.group(q + 1))
         if not have_model: ctx.evaluations += len(cs)
         bad = oracle(ctx, cs, lines) if rc == 0 and len(lines) == len(cs) else [(cs[min(len(lines), len(cs) - 1)], err[-400:], 'harness crashed (rc=%d) after %d cases' % (rc, len(lines)))]
         total_bad += bad
@@ -308,6 +322,7 @@ def run(ctx):
     for c in cases:
         for tok in c.split()[5:]:
             dist[tok[0]] = dist.get(tok[0], 0) + 1
+    ctx.coverage['injected_failures_fired'] = dict(zip(['total', 'add_threw_bad_alloc', 'shrink_failure_swallowed', 'removekey_rolled_back'], injected_total))
     ctx.coverage['input_distribution'] = {'mm_cases': len(cases), 'wrapper_cases': len(um_cases), 'mm_op_histogram': dist,
                                           'configs': 'buckets %s x maxFastCount %s x value types int64/std::string x 5 hash functions' % (BUCKETS, MS)}
     return ctx.finish(rule=RULE)
@@ -322,6 +337,7 @@ def gen_um_cases(ctx, scale):
         b, M = r.choice(UM_CFG)
         K = r.choice([2, 3, 4, 8])
         wide = r.chance(1, 6)
+        ident = r.chance(1, 3)      # keys with identity: equivalent keys that are not ==
         cur = {}; oth = {}; ops = []; nv = 0
         for _ in range(r.range(8, 45)):
             t = r.below(100)
@@ -330,7 +346,8 @@ def gen_um_cases(ctx, scale):
             kk = r.choice(keys) if keys and r.chance(5, 6) else k
             if t < 38:
                 nv += 1; v = nv if r.chance(3, 4) else r.range(0, nv)
-                tok = 'i,%d,%d' % (k, v); cur.setdefault(k, []).append(v)
+                tok = ('i,%d,%d' % (k, v)) if not ident or r.chance(1, 2) else ('j,%d,%d,%d' % (k, r.below(3), v))
+                cur.setdefault(k, []).append(v)
             elif t < 44: tok = 'e,%d' % kk; cur.pop(kk, None)
             elif t < 54:
                 L = len(cur.get(kk, [])); i = r.below(L) if L else 0
@@ -368,6 +385,14 @@ def gen_um_cases(ctx, scale):
         ops = ['i,0,%d' % (2 * i) for i in range(n1)] + ['i,1,%d' % (2 * i + 1) for i in range(n2)]
         r.shuffle(ops)
         ops += ['y', 'f,0,1,2,1', 's', 'e,1', 's'] + (['i,1,1', 'e,1'] if r.chance(1, 2) else []) + ['f,0,1,2,0', 's', 'e,0', 'i,0,0', 's', 'i,0,0']
+        cases.append('um %s %d %d 3 %s' % (b, M, r.choice([0, 1, 3]), ' '.join(ops)))
+    # aimed: same (class, value) pairs but different key identities -> != ; identity kept by later inserts
+    for ci in range(30 * scale):
+        b, M = r.choice(UM_CFG)
+        t1, t2 = r.below(3), r.below(3)
+        vals = [r.below(6) for _ in range(r.range(1, 4))]
+        ops = ['j,0,%d,%d' % (t1, v) for v in vals] + ['s'] + ['j,0,%d,%d' % (t2, v) for v in vals] + ['s', 'j,1,0,9', 's', 'j,1,0,9', 's']
+        ops += ['e,0', 'j,0,%d,%d' % (t2, vals[0])] + ['i,0,%d' % v for v in vals[1:]] + ['f,0,1,1,0', 'j,0,%d,7' % r.below(3), 's', 'c', 'j,0,%d,7' % r.below(3)]
         cases.append('um %s %d %d 3 %s' % (b, M, r.choice([0, 1, 3]), ' '.join(ops)))
     return cases
 
